@@ -75,7 +75,7 @@ def slice_items(draw, T, vals):
     depth = 1 + len(sizes)
     n0 = len(vals)
     fields = [nm for nm, _ in leafT[1]] if leafT[0] == "record" else []
-    mode = draw(st.sampled_from(["tuple", "tuple", "tuple", "tuple", "jagged", "missing"]))
+    mode = draw(st.sampled_from(["tuple", "tuple", "tuple", "tuple", "jagged", "jagged", "missing"]))
     if mode == "jagged" and depth >= 2 and not has_option_list(T):
         # one jagged index per list at level 1 (ints with repeats/negatives/None, or a boolean mask of the right length)
         out = []
@@ -94,10 +94,20 @@ def slice_items(draw, T, vals):
                 k = draw(st.integers(0, 3))
                 out.append([draw(st.one_of(st.integers(-m, m - 1), st.integers(-m, m - 1), st.none())) if m > 0 else None for _ in range(k)] if m > 0 else [])
         item = {"k": "jagged", "data": out}
-        if draw(st.booleans()):
+        if draw(st.integers(0, 2)) > 0:
             # the index array in a generated physical encoding as well (added after the seeded change C01-b - a jagged
-            # boolean mask whose offsets do not start at 0 - was missed): node class, index width, offset origin, option encoding
-            item["desc"] = draw(gen.encode(_jagged_type(out), out, JCFG))
+            # boolean mask whose offsets do not start at 0 - was missed): node class, index width, offset origin, option encoding;
+            # and with every integer dtype in the leaf (after C01-d - narrow leaves behind a non-zero offsets origin - was missed)
+            flat = [k for v in out if v is not None for k in v if k is not None]
+            dts = ["int64", "int64", "int64", "int8", "int16", "int32"] + (["uint8", "uint16", "uint32", "uint64"] if all(k >= 0 for k in flat) else [])
+            item["desc"] = draw(gen.encode(_jagged_type(out, draw(st.sampled_from(dts))), out, JCFG))
+        elif draw(st.booleans()):
+            # canonical nodes (ListOffsetArray64, which asslice() takes as it is) over a strided leaf whose gaps hold out-of-range numbers
+            item["desc"] = _jagged_desc(out)
+            leaf = item["desc"]
+            while leaf["class"] != "NumpyArray":
+                leaf = leaf["content"]
+            leaf["phys"] = {"step": draw(st.sampled_from([2, 3, -1, -2])), "offset": draw(st.integers(0, 2)), "pad": draw(st.integers(0, 2)), "fill": 99}
         return [item]
     if mode == "missing" and n0 > 0:
         k = draw(st.integers(1, 4))
@@ -207,13 +217,13 @@ def realise(items, buffers):
     return tuple(out) if len(out) != 1 else out[0]
 
 
-JCFG = gen.Cfg(max_depth=2, leaf_dtypes=("int64", "bool"), records=False, unions=False, strings=False, unknown=False, regular=False,
+JCFG = gen.Cfg(max_depth=2, leaf_dtypes=("int64", "bool", "int8", "int16", "int32", "uint8", "uint16", "uint32", "uint64"), records=False, unions=False, strings=False, unknown=False, regular=False,
                numpy_nd=False, option_encodings=("IndexedOptionArray64", "IndexedOptionArray32", "ByteMaskedArray", "BitMaskedArray"))
 
 
-def _jagged_type(data):
+def _jagged_type(data, dt="int64"):
     anybool = any(isinstance(k, bool) for v in data if v is not None for k in v)
-    leaf = ["prim", "bool" if anybool else "int64"]
+    leaf = ["prim", "bool" if anybool else dt]
     inner_has_none = any(k is None for v in data if v is not None for k in v)
     ET = ["option", leaf] if inner_has_none else leaf
     T = ["list", ET]
